@@ -103,7 +103,13 @@ func ParseVendorData(packet dhcpv6.DHCPv6) (*VendorData, error) {
 			}
 			vd.VendorName = iana.EnterpriseIDCienaCorporation.String()
 			vd.Model = v[1] + "-" + v[2]
-			duid := packet.(*dhcpv6.Message).Options.ClientID()
+			msg, ok := packet.(*dhcpv6.Message)
+			if !ok {
+				// The serial number lives in the client ID, which only a
+				// (non-relay) message carries.
+				return nil, errors.New("vendor data requires a DHCPv6 message, got a relay message")
+			}
+			duid := msg.Options.ClientID()
 			if enterpriseDUID, ok := duid.(*dhcpv6.DUIDEN); ok {
 				vd.Serial = string(enterpriseDUID.EnterpriseIdentifier)
 			}
